@@ -137,6 +137,17 @@ CHECKS["C20"] = {
     "explanation": "E3 obligations + table arithmetic + structural rule",
 }
 
+CHECKS["C09"] = {
+    "module": "rules_c09",
+    "level": "other",
+    "quick_fs": ["default"],
+    "thorough_fs": ["default", "both"],
+    "technique": "Result-discipline classification of every fallible fetch on the read side (CFG paths), store-before-failure ordering rule with helper inlining, array+cursor effect rules of the backends",
+    "claim": "Structural half of 'never fabricate, never lose the tail': (E1) on every path of every bit reader, code reader, backend and adapter function, each Result of a word fetch / primitive read / code read is propagated (`?`, returned, adapted-then-propagated, or matched with an error-returning Err arm) - never unwrapped, defaulted or dropped; the only exceptions are the 12 table functions, which map a failed peek to `None` (and consume nothing: C05.T2); (E2) strict backends fail exactly where get() fails without moving, the zero-extended reader yields ZERO there and never fails; (E3) in refill and on the refill path of peek_bits nothing of the reader is stored before the failing fetch, so a failed look-ahead at the tail leaves the reader intact and the bit-by-bit fallback decodes the last codes; (E5) the byte adapter fetches whole words with read_exact. The value-level half (decodes correctly) is C02/C05's remainder; exact fetch counts (E4) are covered by C02.R3's accounting.",
+    "note": "Trusted: rustc MIR, exporter, std contracts (read_exact), classification table in sa/rules_result.py.",
+    "explanation": "Structural rules over all read-side functions (all paths; loops entered once).",
+}
+
 NOT_APPLICABLE = {
     "C17": "a bijection over all values of six integer widths is a statement about (x>>1)^-(x&1) on 2^n values: the generic body is a chain of operator-trait calls with no table, pairing, ordering or ownership structure to check; proving the identity needs bit-vector reasoning (a solver) or running it, both outside static analysis (DESIGN.md section 6)",
 }
